@@ -246,7 +246,11 @@ int sm2_fast_verify(const SM2_Z256_POINT point_table[16], const uint8_t dgst[32]
 	sm2_z256_point_mul_generator(&R, s);
 	sm2_z256_point_mul_ex(&T, t, point_table);
 	sm2_z256_point_add(&R, &R, &T);
-	sm2_z256_point_get_xy(&R, x, NULL);
+	// (x, y) must be a finite point, infinity has no x coordinate
+	if (sm2_z256_point_get_xy(&R, x, NULL) != 1) {
+		error_print();
+		return -1;
+	}
 
 	// e = H(M)
 	sm2_z256_from_bytes(e, dgst);
@@ -309,7 +313,11 @@ int sm2_do_verify(const SM2_KEY *key, const uint8_t dgst[32], const SM2_SIGNATUR
 	sm2_z256_point_mul_generator(&R, s);
 	sm2_z256_point_mul(&T, t, &key->public_key);
 	sm2_z256_point_add(&R, &R, &T);
-	sm2_z256_point_get_xy(&R, x, NULL);
+	// (x, y) must be a finite point, infinity has no x coordinate
+	if (sm2_z256_point_get_xy(&R, x, NULL) != 1) {
+		error_print();
+		return -1;
+	}
 
 	// e = H(M)
 	sm2_z256_from_bytes(e, dgst);
